@@ -34,12 +34,14 @@ def complete(prog, rng, dense):
             items.append(pp.use(name))
         elif k == "inc":
             items.append(pp.inc(name))
+        elif k == "kept":
+            items.append(pp.kept(name))
         else:
             items.append(pp.item(k, name))
         # layout: a `define always ends its line; an `include stands alone on its line;
         # otherwise either one item per line or (dense) several items share a line
         nxt_inc = False
-        if k in ("def", "inc") or not dense or rng.random() < 0.4:
+        if k in ("def", "inc", "kept") or not dense or rng.random() < 0.4:
             items.append(pp.nl())
     # `include must be alone on its line: make sure a newline precedes it
     fixed = []
@@ -76,6 +78,8 @@ def cond_program(rng, n, depth):
             out.append(["undef", rng.choice(["A", "B", "C"])])
         elif r < 0.83:
             out.append(["undefall", ""])
+        elif r < 0.86:
+            out.append(["kept", "`resetall"])        # resets directive state, NOT the define table
         elif r < 0.95:
             out.append(["use", rng.choice(["A", "B", "C"])])
         else:
